@@ -167,7 +167,7 @@ fn replay_one<W: TW>(beh: &Value, m: i64, st: &mut ReplayStats, do_sweep: bool, 
         }
         if got_ret != want_ret { record(st, ty, "C09", beh, k, "pop value", got_ret.to_string(), want_ret.to_string()); if !c10_mode { return; } }
         // observers
-        if tree.len() != want_ws.len() { record(st, ty, "C09", beh, k, "len", tree.len().to_string(), want_ws.len().to_string()); return; }
+        if tree.len() != want_ws.len() { record(st, ty, "C09", beh, k, "len", tree.len().to_string(), want_ws.len().to_string()); if !c10_mode { return; } }
         let want_valid = s["valid"].as_bool().unwrap();
         if !c10_mode {
         if tree.is_empty() != want_ws.is_empty() { record(st, ty, "C09", beh, k, "is_empty", tree.is_empty().to_string(), want_ws.is_empty().to_string()); return; }
@@ -212,7 +212,7 @@ fn replay_one<W: TW>(beh: &Value, m: i64, st: &mut ReplayStats, do_sweep: bool, 
                 } else {
                     // outside the modelled one-draw regime: only the zero-weight rule is judged
                     for (i, &c) in r.counts.iter().enumerate() {
-                        if c > 0 && want_ws[i] == 0 { record(st, ty, "C10", beh, k, "zero-weight index returned", i.to_string(), "never".into()); return; }
+                        if c > 0 && want_ws.get(i).copied().unwrap_or(0) == 0 { record(st, ty, "C10", beh, k, "zero-weight index returned", i.to_string(), "never".into()); return; }
                     }
                 }
             }
